@@ -16,7 +16,7 @@
 //! none twice per occurrence; in the documented order for `Display` (vectors: declaration order; matrices:
 //! row-major whatever the layout) and for the std formatters of the views.
 
-use crate::ledger::{self, Ctx, Obs, Tracked};
+use crate::ledger::{self, Ctx, Obs};
 use crate::shapes::{MatOps, VecOps};
 use std::collections::hash_map::DefaultHasher;
 use std::fmt::{self, Debug, Display};
@@ -28,13 +28,15 @@ use vkit::*;
 // format specifications
 // ------------------------------------------------------------------------------------------------
 
-pub struct Spec<D: ?Sized> {
+pub struct Spec<F, G> {
     pub name: &'static str,
     /// how many times the value occurs in the format string
     pub reps: usize,
-    pub to_fmt: fn(&D, &mut dyn fmt::Write) -> fmt::Result,
-    pub to_io: fn(&D, &mut dyn io::Write) -> io::Result<()>,
+    pub to_fmt: F,
+    pub to_io: G,
 }
+pub type DebugSpec = Spec<fn(&dyn Debug, &mut dyn fmt::Write) -> fmt::Result, fn(&dyn Debug, &mut dyn io::Write) -> io::Result<()>>;
+pub type DisplaySpec = Spec<fn(&dyn Display, &mut dyn fmt::Write) -> fmt::Result, fn(&dyn Display, &mut dyn io::Write) -> io::Result<()>>;
 
 macro_rules! spec {
     ($reps:literal, $name:literal, |$x:ident| $($args:tt)+) => {
@@ -42,7 +44,7 @@ macro_rules! spec {
     };
 }
 
-pub static DEBUG_SPECS: &[Spec<dyn Debug>] = &[
+pub static DEBUG_SPECS: &[DebugSpec] = &[
     spec!(1, "{:?}", |x| "{:?}", x),
     spec!(1, "{:#?}", |x| "{:#?}", x),
     spec!(1, "{:10?}", |x| "{:10?}", x),
@@ -69,7 +71,7 @@ pub static DEBUG_SPECS: &[Spec<dyn Debug>] = &[
     spec!(1, "{:#6?} of Some(Some(&it))", |x| "{:#6?}", Some(Some(x))),
 ];
 
-pub static DISPLAY_SPECS: &[Spec<dyn Display>] = &[
+pub static DISPLAY_SPECS: &[DisplaySpec] = &[
     spec!(1, "{}", |x| "{}", x),
     spec!(1, "{:#}", |x| "{:#}", x),
     spec!(1, "{:10}", |x| "{:10}", x),
@@ -131,34 +133,41 @@ impl io::Write for FailIo {
 }
 
 /// (complete text if the sink takes everything, did the call report success)
-fn render<D: ?Sized>(spec: &Spec<D>, sink: usize, limit: usize, x: &D) -> (Option<String>, bool) {
+fn render(to_fmt: &dyn Fn(&mut dyn fmt::Write) -> fmt::Result, to_io: &dyn Fn(&mut dyn io::Write) -> io::Result<()>, sink: usize, limit: usize) -> (Option<String>, bool) {
     match sink {
         0 => {
             let mut s = String::new();
-            let r = (spec.to_fmt)(x, &mut s);
+            let r = to_fmt(&mut s);
             (Some(s), r.is_ok())
         }
         1 => {
             let mut v: Vec<u8> = Vec::new();
-            let r = (spec.to_io)(x, &mut v);
+            let r = to_io(&mut v);
             (Some(String::from_utf8_lossy(&v).into_owned()), r.is_ok())
         }
         2 => {
             let mut p = Pieces { text: String::new(), pieces: 0 };
-            let r = (spec.to_fmt)(x, &mut p);
+            let r = to_fmt(&mut p);
             (Some(p.text), r.is_ok())
         }
         3 => {
             let mut f = FailFmt { text: String::new(), left: limit };
-            let r = (spec.to_fmt)(x, &mut f);
+            let r = to_fmt(&mut f);
             (if r.is_ok() { Some(f.text) } else { None }, r.is_ok())
         }
         _ => {
             let mut f = FailIo { left: limit };
-            let r = (spec.to_io)(x, &mut f);
+            let r = to_io(&mut f);
             (None, r.is_ok())
         }
     }
+}
+
+pub fn check_debug(cx: &mut Cx, spec: &DebugSpec, sink: usize, x: &dyn Debug, ids: &[u32], vals: &[u32], ordered: bool, at: &dyn Fn() -> String) -> CaseResult {
+    check_fmt(cx, Obs::Debug, spec.name, spec.reps, sink, &|s, l| render(&|w| (spec.to_fmt)(x, w), &|w| (spec.to_io)(x, w), s, l), ids, vals, ordered, at)
+}
+pub fn check_display(cx: &mut Cx, spec: &DisplaySpec, sink: usize, x: &dyn Display, ids: &[u32], vals: &[u32], ordered: bool, at: &dyn Fn() -> String) -> CaseResult {
+    check_fmt(cx, Obs::Display, spec.name, spec.reps, sink, &|s, l| render(&|w| (spec.to_fmt)(x, w), &|w| (spec.to_io)(x, w), s, l), ids, vals, ordered, at)
 }
 
 /// the element texts (`t<val>`, written by `Tracked`'s `Debug` / `Display`) in the order they appear
@@ -193,30 +202,30 @@ fn sorted(mut v: Vec<u32>) -> Vec<u32> {
 /// Format `x` with one specification into one sink and judge the call by the observation log.
 /// `ids` / `vals`: the elements the value currently OWNS, in the order it presents them.
 /// `ordered`: the order is part of the claim (else: as a multiset).
-pub fn check_fmt<D: ?Sized>(cx: &mut Cx, kind: Obs, spec: &Spec<D>, sink: usize, x: &D, ids: &[u32], vals: &[u32], ordered: bool, at: &dyn Fn() -> String) -> CaseResult {
+fn check_fmt(cx: &mut Cx, kind: Obs, spec_name: &'static str, reps: usize, sink: usize, run: &dyn Fn(usize, usize) -> (Option<String>, bool), ids: &[u32], vals: &[u32], ordered: bool, at: &dyn Fn() -> String) -> CaseResult {
     let _ = ledger::take_obs_log();
     let before = ledger::totals();
     // the failing sinks give up somewhere inside the output (the position depends on the case, deterministically)
-    let limit = 2 + (ids.len() * 3 + sink + spec.name.len()) % 23;
-    let r = vkit::catch(|| render(spec, sink, limit, x));
+    let limit = 2 + (ids.len() * 3 + sink + spec_name.len()) % 23;
+    let r = vkit::catch(|| run(sink, limit));
     let log = ledger::take_obs_log();
     let (text, ok) = match r {
         Ok(v) => v,
-        Err(msg) => fail!("{}: formatting with {} into {} panicked: {}", at(), spec.name, SINK_NAMES[sink], msg),
+        Err(msg) => fail!("{}: formatting with {} into {} panicked: {}", at(), spec_name, SINK_NAMES[sink], msg),
     };
     let after = ledger::totals();
     cx.count();
     if after.ids != before.ids || after.drops != before.drops || after.clones != before.clones {
-        fail!("{}: formatting with {} created / cloned / dropped elements: before {:?}, after {:?}", at(), spec.name, before, after);
+        fail!("{}: formatting with {} created / cloned / dropped elements: before {:?}, after {:?}", at(), spec_name, before, after);
     }
     let seen: Vec<u32> = log.iter().map(|e| e.1).collect();
     cx.count();
     if let Some(e) = log.iter().find(|e| e.0 != kind) {
-        fail!("{}: formatting with {} ran {:?} on element #{} (only {:?} is expected)", at(), spec.name, e.0, e.1, kind);
+        fail!("{}: formatting with {} ran {:?} on element #{} (only {:?} is expected)", at(), spec_name, e.0, e.1, kind);
     }
-    let mut want_ids: Vec<u32> = Vec::with_capacity(ids.len() * spec.reps);
-    let mut want_vals: Vec<u32> = Vec::with_capacity(ids.len() * spec.reps);
-    for _ in 0..spec.reps {
+    let mut want_ids: Vec<u32> = Vec::with_capacity(ids.len() * reps);
+    let mut want_vals: Vec<u32> = Vec::with_capacity(ids.len() * reps);
+    for _ in 0..reps {
         want_ids.extend_from_slice(ids);
         want_vals.extend_from_slice(vals);
     }
@@ -224,25 +233,25 @@ pub fn check_fmt<D: ?Sized>(cx: &mut Cx, kind: Obs, spec: &Spec<D>, sink: usize,
     cx.count();
     if complete {
         if sink < 3 && !ok {
-            fail!("{}: formatting with {} into {} reported an error", at(), spec.name, SINK_NAMES[sink]);
+            fail!("{}: formatting with {} into {} reported an error", at(), spec_name, SINK_NAMES[sink]);
         }
         let same = if ordered { seen == want_ids } else { sorted(seen.clone()) == sorted(want_ids.clone()) };
         if !same {
-            fail!("{}: formatting with {} into {} looked at the elements {:?}; the value owns exactly {:?}{} (x{} occurrences in the format string)", at(), spec.name, SINK_NAMES[sink], seen, ids, if ordered { ", in this order" } else { "" }, spec.reps);
+            fail!("{}: formatting with {} into {} looked at the elements {:?}; the value owns exactly {:?}{} (x{} occurrences in the format string)", at(), spec_name, SINK_NAMES[sink], seen, ids, if ordered { ", in this order" } else { "" }, reps);
         }
         if let Some(t) = &text {
             let toks = tokens(t);
             cx.count();
             let same = if ordered { toks == want_vals } else { sorted(toks.clone()) == sorted(want_vals.clone()) };
             if !same {
-                fail!("{}: {} shows the element values {:?}, the model says {:?} (text: {:?})", at(), spec.name, toks, want_vals, t);
+                fail!("{}: {} shows the element values {:?}, the model says {:?} (text: {:?})", at(), spec_name, toks, want_vals, t);
             }
         }
     } else {
         // the sink failed: whatever was looked at before must be a prefix of the full sequence (as a multiset: a sub-multiset)
         let pre_ok = if ordered { seen.len() <= want_ids.len() && seen[..] == want_ids[..seen.len()] } else { seen.iter().all(|i| want_ids.contains(i)) && seen.len() <= want_ids.len() };
         if !pre_ok {
-            fail!("{}: formatting with {} into a failing sink looked at the elements {:?}; the value owns exactly {:?}", at(), spec.name, seen, ids);
+            fail!("{}: formatting with {} into a failing sink looked at the elements {:?}; the value owns exactly {:?}", at(), spec_name, seen, ids);
         }
     }
     Ok(())
@@ -391,30 +400,30 @@ where
     sample!(cx, "{} into {}", at(), SINK_NAMES[sink]);
     match kind {
         // the order in which a vector's own Debug lists its fields is not documented: judged as a multiset
-        0 => check_fmt(cx, Obs::Debug, &DEBUG_SPECS[spec], sink, &v as &dyn Debug, &ids, &vals, false, &at)?,
-        1 => check_fmt(cx, Obs::Display, &DISPLAY_SPECS[spec], sink, &v as &dyn Display, &ids, &vals, true, &at)?,
-        2 => check_fmt(cx, Obs::Debug, &DEBUG_SPECS[spec], sink, &v.view(0).slice as &dyn Debug, &ids, &vals, true, &at)?,
+        0 => check_debug(cx, &DEBUG_SPECS[spec], sink, &v as &dyn Debug, &ids, &vals, false, &at)?,
+        1 => check_display(cx, &DISPLAY_SPECS[spec], sink, &v as &dyn Display, &ids, &vals, true, &at)?,
+        2 => check_debug(cx, &DEBUG_SPECS[spec], sink, &v.view(0).slice as &dyn Debug, &ids, &vals, true, &at)?,
         3 => {
             let mut res = Ok(());
-            v.with_iter_debug(&mut |d| res = check_fmt(cx, Obs::Debug, &DEBUG_SPECS[spec], sink, d, &ids, &vals, true, &at));
+            v.with_iter_debug(&mut |d| res = check_debug(cx, &DEBUG_SPECS[spec], sink, d, &ids, &vals, true, &at));
             res?
         }
-        4 => check_fmt(cx, Obs::Debug, &DEBUG_SPECS[spec], sink, &v.view(1).slice as &dyn Debug, &ids, &vals, true, &at)?,
+        4 => check_debug(cx, &DEBUG_SPECS[spec], sink, &v.view(1).slice as &dyn Debug, &ids, &vals, true, &at)?,
         5 => {
             let mut res = Ok(());
-            v.with_iter_mut_debug(&mut |d| res = check_fmt(cx, Obs::Debug, &DEBUG_SPECS[spec], sink, d, &ids, &vals, true, &at));
+            v.with_iter_mut_debug(&mut |d| res = check_debug(cx, &DEBUG_SPECS[spec], sink, d, &ids, &vals, true, &at));
             res?
         }
         6 => {
             let a = v.into_array_();
-            check_fmt(cx, Obs::Debug, &DEBUG_SPECS[spec], sink, &a as &dyn Debug, &ids, &vals, true, &at)?;
+            check_debug(cx, &DEBUG_SPECS[spec], sink, &a as &dyn Debug, &ids, &vals, true, &at)?;
             crate::settle_strict(cx, &at)?;
             drop(a);
             return crate::all_dropped_once(cx, &|| format!("{}, after dropping the array", at()));
         }
         _ => {
             let it = crate::Guard::new(v.into_it());
-            ledger::with_ctx(Ctx::IterDebug, || check_fmt(cx, Obs::Debug, &DEBUG_SPECS[spec], sink, &*it as &dyn Debug, &ids, &vals, true, &at))?;
+            ledger::with_ctx(Ctx::IterDebug, || check_debug(cx, &DEBUG_SPECS[spec], sink, &*it as &dyn Debug, &ids, &vals, true, &at))?;
             crate::settle_strict(cx, &at)?;
             if let Err(m) = it.finish() {
                 fail!("{}: dropping the iterator panicked: {}", at(), m);
@@ -462,15 +471,15 @@ where
     match kind {
         0 => {
             let (ids, vals) = split(&rm);
-            check_fmt(cx, Obs::Debug, &DEBUG_SPECS[spec], sink, &m as &dyn Debug, &ids, &vals, false, &at)?
+            check_debug(cx, &DEBUG_SPECS[spec], sink, &m as &dyn Debug, &ids, &vals, false, &at)?
         }
         1 => {
             let (ids, vals) = split(&rm);
-            check_fmt(cx, Obs::Display, &DISPLAY_SPECS[spec], sink, &m as &dyn Display, &ids, &vals, true, &at)?
+            check_display(cx, &DISPLAY_SPECS[spec], sink, &m as &dyn Display, &ids, &vals, true, &at)?
         }
         _ => {
             let (ids, vals) = split(&st);
-            check_fmt(cx, Obs::Debug, &DEBUG_SPECS[spec], sink, &m.native_slice() as &dyn Debug, &ids, &vals, true, &at)?
+            check_debug(cx, &DEBUG_SPECS[spec], sink, &m.native_slice() as &dyn Debug, &ids, &vals, true, &at)?
         }
     }
     crate::settle_strict(cx, &at)?;
